@@ -327,6 +327,14 @@ def _relevant(F, g, names):
     return any(t in names or t in F.defs for t in g[1] if cstmt.IDENT.match(t))
 
 
+def _bare(tokens) -> str:
+    """an expression without the parentheses that enclose all of it"""
+    toks = list(tokens)
+    while len(toks) >= 2 and toks[0] == "(" and toks[-1] == ")" and cstmt.sole_call(["f"] + toks):
+        toks = toks[1:-1]
+    return cstmt.norm(toks)
+
+
 def _is_call(st, callee):
     if st[0] != "expr":
         return None
@@ -429,9 +437,7 @@ def _r2_handle_error(ctx, label, F, FLAG):
     ends = {}
     try:
         for v in NEG:
-            sy = cstmt.Sym(concrete={**CONSTS, FLAG: v})
-
-            def over(st, sy=sy):
+            def over(st, sy):
                 if st is not ladder[0]:
                     return False
                 for nm in cstmt.written(st) - {FLAG}:
@@ -441,7 +447,7 @@ def _r2_handle_error(ctx, label, F, FLAG):
                         sy.s[nm] = sy.opaque(nm)
                         sy.c.pop(nm, None)
                 return True
-            sy.skip = over
+            sy = cstmt.Sym(concrete={**CONSTS, FLAG: v}, skip=over)
             r = sy.run(F.body)
             ends[v] = cstmt.value(r[1], sy._env()) if r and r[0] == "return" else ("falls off the end" if r is None else r[0])
     except cstmt.Unknown as ex:
@@ -709,7 +715,8 @@ def _r2_solve(ctx, label, mth):
         ctx.unrec("R2", f"{label}:Solve:HandleError receives the flag", (CV, 0), f"expected `x = CVode(..)` and `y = HandleError(..)`, found {len(cvs)} and {len(hes)}")
         return
     (cvi, cv), (hei, he) = cvs[0], hes[0]
-    ca, ha = [cstmt.norm(a) for a in cv[2]], [cstmt.norm(a) for a in he[2]]
+    # (an argument handed over under another name -- `const realtype reached = t0;` after the call -- is that argument)
+    ca, ha = [_bare(F.expand(a, cvi)) for a in cv[2]], [_bare(F.expand(a, hei)) for a in he[2]]
     T = ca[3][1:] if len(ca) == 5 and ca[3].startswith("&") else None
     ok = cvi < hei and T is not None and ca == ["cv_mem_", DT, "cv_y_", "&" + T, "CV_NORMAL"] and ha == [cv[0], AB, DT, T] \
         and not F.written_between({cv[0], T, DT}, cvi, hei)
@@ -802,8 +809,13 @@ def _r4(ctx):
     DT = sv.params[1] if sv.params and len(sv.params) >= 2 else "dt"
     STATE = sv.params[0] if sv.params else "abund"
     tries = [s for s, c in SF.seq if s[0] == "try"]
-    if len(tries) != 1:
-        ctx.bad("R4", "Solve:try", (OD, 0), f"expected one try block around the integration, found {len(tries)}")
+    bare = [x for x, c in SF.seq if x[0] == "expr" and "integrate_adaptive" in x[1] and not any(g[0] == "try" for g in c)]
+    if bare:
+        # positive evidence: the integration runs outside every try block, what the observer throws leaves Solve
+        ctx.bad("R4", "Solve:try", (OD, 0), "integrate_adaptive is called outside a try block: exceeding the step budget escapes Solve as an exception instead of returning NAUNET_FAIL",
+                expected="try { .. integrate_adaptive(..) .. } catch (const std::runtime_error &e) { .. NAUNET_FAIL .. }", found=cstmt.txt(bare[0][1])[:120])
+    elif len(tries) != 1:
+        ctx.unrec("R4", "Solve:try", (OD, 0), f"expected one try block around the integration, found {len(tries)}: the shape of Solve is not understood")
     else:
         t = tries[0]
         integ_st = [x for x, _ in cstmt.walk(t[1]) if x[0] == "expr" and "integrate_adaptive" in x[1]]
@@ -876,8 +888,10 @@ def _r4(ctx):
                     ctx.check(ok, "R4", "handler sets failure", (OD, 0), "Solve returns NAUNET_FAIL when the handler ran" if ok else
                               "after a caught exception (step budget exceeded) Solve does not return NAUNET_FAIL: the unfinished state is reported as a success", expected="NAUNET_FAIL (1)", found=str(rough))
                 ctx.check(calm is not None and all(x is not None for x in rough), "R4", "odeint Solve returns flag", (OD, 0), "what Solve returns is decided by whether the handler ran")
-        decl = [x[1] for x, c in SF.seq if x[0] == "expr" and OBS and OBS in x[1] and "Observer" in x[1]]
-        obs = any(cstmt.norm(d) in (f"Observer{OBS}(mxsteps_)", f"Observer{OBS}{{mxsteps_}}", f"Observer{OBS}=Observer(mxsteps_)", f"auto{OBS}=Observer(mxsteps_)") for d in decl)
+        decl = [x for x, c in SF.seq if x[0] == "expr" and OBS and OBS in x[1] and "Observer" in x[1]]
+        # the budget may be handed over under a local name (`const int budget = mxsteps_;`)
+        decl = [d[1][:d[1].index(OBS) + 1] + [t for t in SF.expand(d[1][d[1].index(OBS) + 1:], SF.pos[id(d)]) if t not in ("(", ")", "{", "}")] for d in decl]
+        obs = any(cstmt.norm(d) in (f"Observer{OBS}mxsteps_", f"Observer{OBS}=Observermxsteps_", f"auto{OBS}=Observermxsteps_") for d in decl)
         ctx.check(obs, "R4", "observer gets the step budget", (OD, 0), "Observer observer(mxsteps_): a fresh observer per call, built from the configured budget", found=str([cstmt.txt(d) for d in decl]))
 
 
